@@ -412,7 +412,11 @@ class Run:
         if self.broken and not self.violations and replay_path is None and os.path.exists(getattr(self, "bin", "/nonexistent")):
             self.log("an obligation/correspondence no longer checks: searching for a failing input with the property monitor")
             budget = P.get("search_seeds", 3)
+            t_search = time.time()
             for i in range(budget):
+                if time.time() - t_search > P.get("search_budget_s", 240):
+                    self.log("search budget used up")
+                    break
                 c, _, _ = self.run_harness("thorough" if i == 0 else "quick", self.seed + 1000 + i, tag=".search")
                 v = self.drive(c) if c else None
                 if v:
